@@ -138,7 +138,7 @@ ADDED = {
     "C06": " Plus 100-, 1030- and 1100-line products (many line groups; more lines than the default request size). An 8300-line product at request sizes around and beyond 8192 lines.",
     "C07": " Plus per-line values that are identical / drift by one unit / are piecewise constant (what a size-optimised index would fold), and 16 configurations in an interpreter whose locale encoding is ASCII. The first pixel load of a fresh cached tree must read what an uncached tree's load reads; use_cache=True with create_cache=True must use a usable cache without touching the image.",
     "C08": " Plus pattern arrays (identical elements, zeros of mixed sign, adjacent representable values, all NaN/NaT) and long arrays (20..5000 elements, piecewise constant with change points 4/15/1000/1024/4096, full-range ramps, both byte orders), reader-produced 4200-line groups. Backend byte ranges straddling / touching offsets 2^31, 2^32 and 2^40 on every line; non-contiguous, transposed and strided input arrays.",
-    "C09": " Plus an 18000-line image whose index exceeds 5 MiB, cut at every power of two 2^12..2^22 and every MiB multiple in both locations (block-wise copies and reads). Default opens of torn indexes while no file can grow beyond the prefix length (RLIMIT_FSIZE: the volume is still full). With a complete index in the other location the line records must not be re-read.",
+    "C09": " Plus an 18000-line image whose index exceeds 5 MiB, cut at every power of two 2^12..2^22 and every MiB multiple in both locations (block-wise copies and reads). Default opens of torn indexes while no file can grow beyond the prefix length (RLIMIT_FSIZE: the volume is still full). With a complete index in the other location the line records must not be re-read. Real crash points: a forked child running create_cache=True is killed by the kernel (RLIMIT_FSIZE + default SIGXFSZ) at byte k of the cache file it writes; the parent opens, repairs and re-opens what was left.",
     "C10": " Products have 22..23-line images with piecewise-constant per-line values.",
     "C11": " Plus pointwise (vectorised) pairs and triples, loads from deep copies / pickle round trips, and images of 2100..5120 lines and 104 MB. Plus an index written by the command line tool elsewhere and deployed next to the image, every selection being the first load of a fresh copy of the lazy object. Narrow column windows of 16- and 40-pixel lines.",
     "C12": " Plus declared-vs-loaded shape/dtype of 9 selections on 8 realistically sized images (up to 104 MB).",
